@@ -21,7 +21,133 @@ def published_slit(L, T, ads, mat):
         sig ** 4 / (3 * (L - d0) ** 3) - sig ** 10 / (9 * (L - d0) ** 9) - sig ** 4 / (3 * d0 ** 3) + sig ** 10 / (9 * d0 ** 9)))
 
 
+# ---- independent transcriptions of the documented equations (docstrings of psd_horvath_kawazoe / psd_horvath_kawazoe_ry):
+# Saito-Foley cylinder, Rege-Yang slit and cylinder.  (The spherical equations are not transcribed: the docstring's T_x sign
+# convention and the code disagree and the paper is not available here -- stated in DESIGN.md.)
+import math
+import scipy.constants as c
+
+
+def _consts(ads, mat):
+    pa, ps_, ma, ms = (ads['polarizability'] * 1e-27, mat['polarizability'] * 1e-27, ads['magnetic_susceptibility'] * 1e-27,
+                       mat['magnetic_susceptibility'] * 1e-27)
+    A_gg = 1.5 * c.electron_mass * c.speed_of_light ** 2 * pa * ma
+    A_gh = 6 * c.electron_mass * c.speed_of_light ** 2 * pa * ps_ / (pa / ma + ps_ / ms)
+    d_g, d_h = ads['molecular_diameter'], mat['molecular_diameter']
+    return A_gg, A_gh, d_g, d_h, (d_g + d_h) / 2, ads['surface_density'], mat['surface_density']
+
+
+def _ab(kmax):
+    a, b = [1.0], [1.0]
+    for k in range(1, kmax):
+        a.append(((-4.5 - k) / k) ** 2 * a[-1])
+        b.append(((-1.5 - k) / k) ** 2 * b[-1])
+    return a, b
+
+
+_A, _B = _ab(4000)
+
+
+def hk_cylinder(L, T, ads, mat, kmax=4000):
+    """RT ln p = 3/4 pi N_A (n_h A_gh + n_g A_gg)/d0^4 sum_k 1/(k+1) (1-d0/L)^(2k) [21/32 a_k (d0/L)^10 - b_k (d0/L)^4]"""
+    A_gg, A_gh, d_g, d_h, d0, n_g, n_h = _consts(ads, mat)
+    r = d0 / L
+    s = 0.0
+    for k in range(kmax):
+        t = (1 - r) ** (2 * k) / (k + 1) * (21 / 32 * _A[k] * r ** 10 - _B[k] * r ** 4)
+        s += t
+        if abs(t) < 1e-18 * abs(s):
+            break
+    return math.exp(0.75 * math.pi * c.Avogadro / (c.gas_constant * T) * (n_h * A_gh + n_g * A_gg) / (d0 * 1e-9) ** 4 * s)
+
+
+def hk_sphere(L, T, ads, mat):
+    A_gg, A_gh, d_g, d_h, d0, n_g, n_h = _consts(ads, mat)
+    n1 = 4 * math.pi * (L * 1e-9) ** 2 * n_h
+    n2 = 4 * math.pi * ((L - d0) * 1e-9) ** 2 * n_g
+    q = (L - d0) / L
+
+    def Tx(x):
+        return (1 + (-1) ** x * q) ** (-x) - (1 - (-1) ** x * q) ** (-x)
+    e = 6 * (n1 * A_gh / (4 * (d0 * 1e-9) ** 6) + n2 * A_gg / (4 * (d_g * 1e-9) ** 6)) * L ** 3 / (L - d0) ** 3 * (
+        (d0 / L) ** 12 * (Tx(9) / 90 - Tx(8) / 80) - (d0 / L) ** 6 * (Tx(3) / 12 - Tx(2) / 8))
+    return math.exp(c.Avogadro / (c.gas_constant * T) * e)
+
+
+def ry_slit(L, T, ads, mat):
+    A_gg, A_gh, d_g, d_h, d0, n_g, n_h = _consts(ads, mat)
+    sig, sig_g = (2 / 5) ** (1 / 6) * d0, (2 / 5) ** (1 / 6) * d_g
+    M = (L - d_h) / d_g
+    e_gs = n_h * A_gh / (2 * (sig * 1e-9) ** 4) * ((sig / d0) ** 10 - (sig / d0) ** 4)
+    e_gg = n_g * A_gg / (2 * (sig_g * 1e-9) ** 4) * ((sig_g / d_g) ** 10 - (sig_g / d_g) ** 4)
+    if M < 2:
+        e = n_h * A_gh / (2 * (sig * 1e-9) ** 4) * ((sig / d0) ** 10 - (sig / d0) ** 4 + (sig / (L - d0)) ** 10 - (sig / (L - d0)) ** 4)
+    else:
+        e = (2 * (e_gs + e_gg) + (M - 2) * 2 * e_gg) / M
+    return math.exp(c.Avogadro / (c.gas_constant * T) * e)
+
+
+def _layers(L, d_h, d_g):
+    return int(((2 * L - d_h) / d_g - 1) / 2) + 1
+
+
+def ry_cylinder(L, T, ads, mat, kmax=4000):
+    A_gg, A_gh, d_g, d_h, d0, n_g, n_h = _consts(ads, mat)
+
+    def eps(d, n, A, a):
+        b = 1 - a
+        sa = sum(_A[k] * b ** (2 * k) for k in range(kmax))
+        sb = sum(_B[k] * b ** (2 * k) for k in range(kmax))
+        return 0.75 * math.pi * n * A / (d * 1e-9) ** 4 * (21 / 32 * a ** 10 * sa - a ** 4 * sb)
+    M = _layers(L, d_h, d_g)
+    num = den = 0.0
+    for i in range(1, M + 1):
+        x = d_g / (2 * (L - d0 - (i - 1) * d_g))
+        n_i = math.pi / math.asin(x) if x <= 1 else 1.0  # a single file of molecules on the axis counts once
+        e_i = eps(d0, n_h, A_gh, d0 / L) if i == 1 else eps(d_g, n_g, A_gg, d_g / (L - d0 - (i - 2) * d_g))
+        num += n_i * e_i
+        den += n_i
+    return math.exp(c.Avogadro / (c.gas_constant * T) * num / den)
+
+
+TRANSCRIBED = {
+    ('HK', 'cylinder'): (hk_cylinder, 0.012, 'radius'), ('RY', 'cylinder'): (ry_cylinder, 0.012, 'radius'), ('RY', 'slit'): (ry_slit, 2e-3, 'width'),
+}
+
+
+def transcribed_cases(thorough=False):
+    """pressures computed from the transcribed equation for chosen widths are mapped back to those widths"""
+    import warnings
+    import pygaps
+    pygaps.logger.disabled = True
+    import pygaps.characterisation.psd_micro as PMi
+    from pygaps.characterisation.models_hk import get_hk_model
+    Ws = numpy.array([0.70, 0.80, 1.00, 1.10, 1.30, 1.40, 1.60, 1.70, 1.90, 2.00])
+    for matname in (['Carbon(HK)', 'AlSiOxideIon'] if thorough else ['Carbon(HK)']):
+        mat = get_hk_model(matname)
+        for T in ((77.355, 150.0) if thorough else (77.355,)):
+            for (model, geom), (spec, tol, kind) in TRANSCRIBED.items():
+                Ls = (Ws + mat['molecular_diameter']) / 2 if kind == 'radius' else Ws + mat['molecular_diameter']
+                p = numpy.array([spec(L, T, ADS, mat) for L in Ls])
+                keep = (p > 1e-14) & (p < 0.95)
+                order = numpy.argsort(p[keep])
+                pk, Wk = p[keep][order], Ws[keep][order]
+                name = f"documented_equation_round_trip|{model}|{geom}|{matname}|T={T}"
+                if len(pk) < 4:
+                    yield {'name': name, 'ok': True, 'detail': 'fewer than four pressures in range (no claim)'}
+                    continue
+                f = PMi.psd_horvath_kawazoe if model == 'HK' else PMi.psd_horvath_kawazoe_ry
+                with warnings.catch_warnings():
+                    warnings.simplefilter('ignore')
+                    w, dist, vc = f(pk, numpy.linspace(1.0, 5.0, len(pk)), T, geom, ADS, mat)
+                want = (Wk[:-1] + Wk[1:]) / 2
+                w = numpy.asarray(w, dtype=float)
+                ok = len(w) == len(want) and bool(numpy.max(numpy.abs(w - want)) <= tol)
+                yield {'name': name, 'ok': ok, 'detail': '' if ok else f"expected mid-widths {want[:6]} reported {w[:6]}"}
+
+
 def bounded_cases(seed, thorough=False):
+    yield from transcribed_cases(thorough)
     import pygaps
     pygaps.logger.disabled = True
     import pygaps.characterisation.psd_micro as PMi
